@@ -26,7 +26,7 @@ impl rand::RngCore for PlainRng {
         Ok(())
     }
 }
-use crate::{p, Ctx, Driver, LIVE};
+use crate::{p, Ctx, Driver, TLIVE};
 use pdatastructs::countminsketch::CountMinSketch;
 use pdatastructs::filters::bloomfilter::BloomFilter;
 use pdatastructs::filters::cuckoofilter::CuckooFilter;
@@ -37,13 +37,12 @@ use pdatastructs::reservoirsampling::ReservoirSampling;
 use pdatastructs::tdigest::{TDigest, K1};
 use pdatastructs::topk::cmsheap::CMSHeap;
 use pdatastructs::topk::lossycounter::LossyCounter;
-use std::sync::atomic::Ordering;
 
 #[derive(Default)]
 pub struct D {}
 
 fn live() -> i64 {
-    LIVE.load(Ordering::SeqCst)
+    TLIVE.with(|c| c.get())
 }
 
 /// runs `step(i)` for i in done..upto
@@ -109,6 +108,13 @@ impl Driver for D {
                 }
                 f.clear();
                 out.push(live() - base);
+                for round in 0..60u64 {
+                    for i in 0..8u64 {
+                        let _ = f.insert(&(round * 8 + i));
+                    }
+                    f.clear();
+                }
+                out.push(live() - base);
             }
             "qf" => {
                 let mut f = QuotientFilter::<u64, BH>::with_params_and_hash(a[0] as usize, a[1] as usize, BH::default());
@@ -120,14 +126,29 @@ impl Driver for D {
                 }
                 f.clear();
                 out.push(live() - base);
+                for round in 0..60u64 {
+                    for i in 0..8u64 {
+                        let _ = f.insert(&(round * 8 + i));
+                    }
+                    f.clear();
+                }
+                out.push(live() - base);
             }
-            "td" => {
+            "td" | "tdw" => {
                 let delta = a[0] as f64;
                 let mut f = TDigest::new(K1::new(delta), a[1] as usize);
                 bound = (delta + 3.0 + a[1] as f64 + 1.0) * 16.0 * 2.0; // centroids + backlog, sorted copy during merge
                 out.push(live() - base);
+                let weighted = what == "tdw";
                 for k in [1, 10] {
-                    drive(&mut done, nops * k, |i| f.insert((crate::rec::splitmix(i) % 1_000_003) as f64));
+                    drive(&mut done, nops * k, |i| {
+                        let x = (crate::rec::splitmix(i) % 1_000_003) as f64;
+                        if weighted {
+                            f.insert_weighted(x, 2.0 + (i % 3) as f64);
+                        } else {
+                            f.insert(x);
+                        }
+                    });
                     let _ = f.n_centroids();
                     out.push(live() - base);
                 }
@@ -151,7 +172,7 @@ impl Driver for D {
                 bound = (a[0] * 160 + a[1] * a[2] * 8) as f64;
                 out.push(live() - base);
                 for k in [1, 10] {
-                    drive(&mut done, nops * k, |i| f.add(crate::rec::splitmix(i) % 50_000));
+                    drive(&mut done, nops * k, |i| f.add((crate::rec::splitmix(i) % 997) * (crate::rec::splitmix(i ^ 0x55) % 13) % 5000));
                     out.push(live() - base);
                 }
                 f.clear();
@@ -180,6 +201,9 @@ impl Driver for D {
                 ctx.fail("C11", format!("{} {:?}: {} live bytes at stage {} (0 = new, 1 = n ops, 2 = 10n ops, 3 = cleared) exceed 2*{}+2048 (configuration bound)", what, a, b, k, bound as u64));
                 break;
             }
+        }
+        if out.len() > 4 && out[4] > out[3] + 64 {
+            ctx.fail("C11", format!("{} {:?}: live bytes grow with repeated clear(): {} after the first clear, {} after 60 more fill/clear rounds", what, a, out[3], out[4]));
         }
         if after > 64 {
             ctx.fail("C11", format!("{} {:?}: {} bytes still live after the structure was dropped", what, a, after));
